@@ -268,6 +268,12 @@ func Reach(start *ssa.BasicBlock, cut EdgeCut, stop func(*ssa.BasicBlock) bool) 
 			if cut != nil && cut(b, idx) {
 				continue
 			}
+			// a branch on a constant ( if debug { ... } , a check forced on or off) has one live edge
+			if iff, ok := b.Instrs[len(b.Instrs)-1].(*ssa.If); ok {
+				if k, isConst := constCond(iff.Cond); isConst && ((idx == 0 && !k) || (idx == 1 && k)) {
+					continue
+				}
+			}
 			if !seen[s] {
 				seen[s] = true
 				work = append(work, s)
@@ -417,14 +423,60 @@ func Explore(start *ssa.BasicBlock, pred int, fact CondFact, visit func(*ssa.Bas
 		b   *ssa.BasicBlock
 		env string
 	}
+	// decisions: outcomes of earlier  x == nil / x != nil  tests on this walk for values x that are merged into a relevant phi
+	// ( if e1 != nil { err = e1 } ... if err != nil ): the merged test cannot come out the other way for the same x
+	type decision struct {
+		x     ssa.Value
+		isNil bool
+	}
+	phiInput := map[ssa.Value]bool{}
+	for b := range relevant {
+		for _, i := range b.Instrs {
+			if ph, ok := i.(*ssa.Phi); ok {
+				for _, e := range ph.Edges {
+					if _, isConst := e.(*ssa.Const); !isConst {
+						phiInput[e] = true
+					}
+				}
+			}
+		}
+	}
+	nilTest := func(c ssa.Value) (ssa.Value, bool, bool) { // (x, condition true means x is nil, ok)
+		neg := false
+		for {
+			if u, ok := c.(*ssa.UnOp); ok && u.Op == token.NOT {
+				c, neg = u.X, !neg
+				continue
+			}
+			break
+		}
+		bo, ok := c.(*ssa.BinOp)
+		if !ok || (bo.Op != token.EQL && bo.Op != token.NEQ) {
+			return nil, false, false
+		}
+		var x ssa.Value
+		switch {
+		case IsNilConst(bo.Y):
+			x = bo.X
+		case IsNilConst(bo.X):
+			x = bo.Y
+		default:
+			return nil, false, false
+		}
+		return x, (bo.Op == token.EQL) != neg, true
+	}
 	type item struct {
 		b   *ssa.BasicBlock
 		env []entry // most recent last
+		dec []decision
 	}
-	key := func(env []entry) string {
+	key := func(env []entry, dec []decision) string {
 		var sb strings.Builder
 		for _, e := range env {
 			fmt.Fprintf(&sb, "%d:%d,", e.b.Index, e.pred)
+		}
+		for _, d := range dec {
+			fmt.Fprintf(&sb, "|%p:%v", d.x, d.isNil)
 		}
 		return sb.String()
 	}
@@ -445,8 +497,8 @@ func Explore(start *ssa.BasicBlock, pred int, fact CondFact, visit func(*ssa.Bas
 		return out
 	}
 	first := enter(nil, start, pred)
-	seen := map[state]bool{{start, key(first)}: true}
-	work := []item{{start, first}}
+	seen := map[state]bool{{start, key(first, nil)}: true}
+	work := []item{{start, first, nil}}
 	for len(work) > 0 {
 		s := work[len(work)-1]
 		work = work[:len(work)-1]
@@ -471,8 +523,9 @@ func Explore(start *ssa.BasicBlock, pred int, fact CondFact, visit func(*ssa.Bas
 						continue
 					}
 				}
+				cond := iff.Cond
 				if len(s.env) > 0 {
-					cond := specialiseEnv(iff.Cond, lookup, 6)
+					cond = specialiseEnv(iff.Cond, lookup, 6)
 					if k, isConst := constCond(cond); isConst {
 						if (idx == 0 && !k) || (idx == 1 && k) {
 							continue // infeasible for the incoming value
@@ -484,12 +537,39 @@ func Explore(start *ssa.BasicBlock, pred int, fact CondFact, visit func(*ssa.Bas
 						}
 					}
 				}
+				// contradiction with an earlier nil test of the same value on this walk
+				if x, trueMeansNil, ok := nilTest(cond); ok {
+					contradicts := false
+					for _, d := range s.dec {
+						if d.x == x && d.isNil != (trueMeansNil == (idx == 0)) {
+							contradicts = true
+						}
+					}
+					if contradicts {
+						continue
+					}
+				}
+			}
+			ndec := s.dec
+			if iff != nil {
+				if x, trueMeansNil, ok := nilTest(iff.Cond); ok && phiInput[x] {
+					d := decision{x, trueMeansNil == (idx == 0)}
+					dup := false
+					for _, e := range ndec {
+						if e == d {
+							dup = true
+						}
+					}
+					if !dup && len(ndec) < 4 {
+						ndec = append(append([]decision(nil), ndec...), d)
+					}
+				}
 			}
 			nenv := enter(s.env, succ, PredIndex(s.b, idx))
-			st := state{succ, key(nenv)}
+			st := state{succ, key(nenv, ndec)}
 			if !seen[st] {
 				seen[st] = true
-				work = append(work, item{succ, nenv})
+				work = append(work, item{succ, nenv, ndec})
 			}
 		}
 	}
@@ -1123,6 +1203,17 @@ func Sources(v ssa.Value) []ssa.Value {
 			if a, ok := x.X.(*ssa.Alloc); ok {
 				followed := false
 				for _, r := range *a.Referrers() {
+					if ia, ok := r.(*ssa.IndexAddr); ok {
+						for _, rr := range *ia.Referrers() {
+							if st, ok := rr.(*ssa.Store); ok && st.Addr == ia {
+								followed = true
+								walk(st.Val)
+							}
+						}
+					}
+				}
+				// ... or through the slice value itself ( b := make([]byte, 1); b[0] = v )
+				for _, r := range *x.Referrers() {
 					if ia, ok := r.(*ssa.IndexAddr); ok {
 						for _, rr := range *ia.Referrers() {
 							if st, ok := rr.(*ssa.Store); ok && st.Addr == ia {
